@@ -603,7 +603,7 @@ func main() {
 			fail([]finding{{"json:newline-inside", "an encoded string holds a newline"}}, rp)
 		}
 		if len(s) <= 400 {
-			add(fmt.Sprintf("JCStr %s %s", lit(s), lit(calls[0])), rp)
+			add(fmt.Sprintf("JCStr %s %s %s %s", lit(s), lit(calls[0]), hutil.CoqBool(utf8.Valid(s)), lit([]byte(back))), rp)
 		}
 		sum.Count("s\x00"+string(s), len(s) > 0)
 		sum.Dist("stage_strings")
